@@ -127,10 +127,89 @@ func genPlainPass(r *rand.Rand, t core.Tier) *world.Scenario {
 	if r.IntN(10) == 0 {
 		s.MaxInstanceTypes = 1 + r.IntN(2)
 	}
+	if r.IntN(100) < 35 {
+		decorateZonalVolumes(r, s)
+	}
 	return s
 }
 
-var generalOpts = world.GenOpts{InterPod: 0.2, NodeAffinity: 0.4, Existing: 0.4, Reserved: true, Limits: 0.15, MaxPods: 10}
+// decorateZonalVolumes: pods of the focused generator mount PersistentVolumeClaims whose volume topology pins them to a zone
+// (bound PersistentVolume with zonal node affinity, or an unbound claim of a WaitForFirstConsumer StorageClass with
+// allowedTopologies) - the pod then carries volume requirements (Scheduler.volumeReqsByPod, the non-nil alternative of
+// NodeClaim.CanAdd).  Most volumes sit in one zone of the scenario, preferably one with a reserved offering, so that the pods
+// compete for the same scarce reservation.  Mostly one volume with one topology term; sometimes a second volume (same or
+// other zone), a volume without topology, or a volume with two OR-ed terms (several alternatives).
+func decorateZonalVolumes(r *rand.Rand, s *world.Scenario) {
+	zoneKey := "topology.kubernetes.io/zone"
+	var rz []string
+	for _, it := range s.ITs {
+		for _, o := range it.Offerings {
+			if o.ReservationID != "" {
+				rz = append(rz, o.Zone)
+			}
+		}
+	}
+	home := pick(r, c17Zones)
+	if len(rz) > 0 && r.IntN(5) != 0 {
+		home = pick(r, rz)
+	}
+	zone := func() string {
+		if r.IntN(4) == 0 {
+			return pick(r, c17Zones)
+		}
+		return home
+	}
+	term := func(z ...string) []world.KExpr { return []world.KExpr{{Key: zoneKey, Op: "In", Values: z}} }
+	s.StorageClasses = []world.StorageClass{{Name: "sc-any"}}
+	for _, z := range c17Zones {
+		s.StorageClasses = append(s.StorageClasses, world.StorageClass{Name: "sc-" + z, Topologies: [][]world.KExpr{term(z)}})
+	}
+	other := pick(r, c17Zones)
+	s.StorageClasses = append(s.StorageClasses, world.StorageClass{Name: "sc-two", Topologies: [][]world.KExpr{term(home), term(other)}})
+	pPod := 0.4 + 0.6*r.Float64()
+	n := 0
+	pods := append([]world.Pod(nil), s.Pods...)
+	for i := range pods {
+		p := &pods[i]
+		if r.Float64() > pPod {
+			continue
+		}
+		k := 1
+		if r.IntN(6) == 0 {
+			k = 2
+		}
+		p.Volumes = nil
+		for j := 0; j < k; j++ {
+			n++
+			claim := world.PVC{Name: fmt.Sprintf("claim-%d", n)}
+			switch x := r.IntN(20); {
+			case x < 8:
+				pv := world.PV{Name: fmt.Sprintf("pv-%d", n), Terms: [][]world.KExpr{term(zone())}}
+				claim.VolumeName = pv.Name
+				s.PVs = append(s.PVs, pv)
+			case x < 15:
+				claim.StorageClass = "sc-" + zone()
+			case x < 16:
+				claim.StorageClass = "sc-any"
+			case x < 17:
+				pv := world.PV{Name: fmt.Sprintf("pv-%d", n), Terms: [][]world.KExpr{term(home, other)}}
+				claim.VolumeName = pv.Name
+				s.PVs = append(s.PVs, pv)
+			case x < 18:
+				pv := world.PV{Name: fmt.Sprintf("pv-%d", n), Terms: [][]world.KExpr{term(zone()), term(pick(r, c17Zones))}}
+				claim.VolumeName = pv.Name
+				s.PVs = append(s.PVs, pv)
+			default:
+				claim.StorageClass = "sc-two"
+			}
+			s.PVCs = append(s.PVCs, claim)
+			p.Volumes = append(p.Volumes, world.Volume{Name: fmt.Sprintf("vol-%d", j), Claim: claim.Name})
+		}
+	}
+	s.Pods = pods
+}
+
+var generalOpts = world.GenOpts{InterPod: 0.2, NodeAffinity: 0.4, Existing: 0.4, Reserved: true, Limits: 0.15, MaxPods: 10, Volumes: 0.2}
 
 func genPass(r *rand.Rand, t core.Tier) any {
 	var s *world.Scenario
@@ -217,6 +296,39 @@ func opPass() *core.Op {
 			}
 			if len(in.DaemonSets) == 0 && len(in.Nodes) == 0 {
 				l = append(l, "focused-generator")
+			}
+			if len(in.PVCs) > 0 {
+				l = append(l, "pods-with-volume-topology")
+				vols := map[string]bool{}
+				for _, p := range in.Pods {
+					if len(p.Volumes) > 0 {
+						vols[p.Name] = true
+					}
+				}
+				volDeferred, volAlone := false, false
+				for pn, e := range er {
+					if fmt.Sprint(e) == "reserved-offering" && vols[pn] {
+						volDeferred = true
+					}
+				}
+				for _, c := range cs {
+					cm, _ := c.(map[string]any)
+					ps, _ := cm["pods"].([]any)
+					h, _ := cm["held"].([]any)
+					if len(ps) > 0 && len(h) > 0 {
+						for _, pn := range ps {
+							if vols[fmt.Sprint(pn)] {
+								volAlone = true
+							}
+						}
+					}
+				}
+				if volDeferred {
+					l = append(l, "pod-with-volume-deferred-for-reserved-capacity")
+				}
+				if volAlone {
+					l = append(l, "pod-with-volume-on-a-claim-holding-a-reservation")
+				}
 			}
 			if e, _ := m["err"].(string); e != "" {
 				l = append(l, "schedule-error")
